@@ -1,6 +1,6 @@
 (** C04 - Sorted sets stay totally ordered and consistent under every update.
-    Statements only; proofs are in Proofs/SkipListFacts.v, Proofs/ZSetsFacts.v and
-    Proofs/F64Facts.v.  Models: Model/SkipList.v (skiplist.rs: nodes with member,
+    Statements only; proofs are in Proofs/SkipListFacts.v and Proofs/ZSetsFacts.v
+    (IEEE cross-checks through Flocq are kept apart in Props/C04F64.v).  Models: Model/SkipList.v (skiplist.rs: nodes with member,
     score bits and tower height; per-level chains derived; key_index, length and
     level kept as the code keeps them) and Model/ZSets.v (server.rs handle_z*,
     engine.rs zadd..zcard).  Specification: Spec/ZSet.v (duplicate-free list
@@ -15,7 +15,7 @@
       zbyscore-nan-bound  NaN accepted as a score bound *)
 From Coq Require Import Sorting.Sorted.
 From Ferrous Require Import Base.Bytes Model.Resp Model.Types Model.Strings Model.SkipList Model.ZSets
-  Spec.ZSet Proofs.BytesFacts Proofs.SkipListFacts Proofs.ZSetsFacts Proofs.F64Facts.
+  Spec.ZSet Proofs.BytesFacts Proofs.SkipListFacts Proofs.ZSetsFacts.
 Open Scope Z_scope.
 
 (** ---- 1. the comparator and the search ---- *)
@@ -207,13 +207,14 @@ Theorem c04_nan_stored_refuted :
              eng_zscore d' kz (bs "m") = Some (Some nan_bits) /\ ~ db_zok d'.
 Proof. exact zadd_nan_stored. Qed.
 
-(** "an increment producing NaN is refused": inf + (-inf) is stored as NaN *)
+(** "an increment producing NaN is refused": inf + (-inf) is stored as NaN (the sum taken
+    from the oracle, NaN, is the IEEE sum: Props/C04F64.v c04_ieee_inf_minus_inf) *)
 Theorem c04_zincrby_nan_refuted :
   exists d1 d2,
     exec_zsets 0 empty_db (bs "ZADD") (cmd [bs "ZADD"; kz; bs "inf"; bs "m"])
       (oracle_of [None; None; Some pinf_bits; None]) = Some (r_int 1, d1) /\
     exec_zsets 0 d1 (bs "ZINCRBY") (cmd [bs "ZINCRBY"; kz; bs "-inf"; bs "m"])
-      (oracle_of [None; None; Some ninf_bits; None; Some (f64_add pinf_bits ninf_bits)]) = Some (FDouble nan_bits, d2) /\
+      (oracle_of [None; None; Some ninf_bits; None; Some nan_bits]) = Some (FDouble nan_bits, d2) /\
     eng_zscore d2 kz (bs "m") = Some (Some nan_bits).
 Proof. exact zincrby_nan_stored. Qed.
 
@@ -275,10 +276,6 @@ Proof.
     intros i b. do 9 (destruct i as [|i]; cbn; try discriminate; try (intro H; inversion H; reflexivity)).
   - vm_compute. reflexivity.
 Qed.
-(** the bit-pattern comparison agrees with Flocq's IEEE comparison on the pool (a test) *)
-Example c04_f_pcmp_pool_check :
-  forallb (fun a => forallb (fun b => pcmp_agrees a b) f64_pool) f64_pool = true.
-Proof. exact f_pcmp_pool_check. Qed.
 Example c04_known_classes_not_everything :
   kf_zrange_fwd 3 0 (-1) = false /\ kf_zrange_fwd 3 (-100) 100 = false /\
   kf_zrange_rev 3 0 (-1) = false /\ kf_zrange_rev 3 1 2 = false.
